@@ -182,6 +182,47 @@ fn exec(op: &Op) -> String {
             let _ = std::fs::remove_dir_all("f");
             format!("size={}|sums={}|all={}|calc={}|csize={}", size, sums.join(","), all.join(","), calc.join(","), csize)
         }
+        "entry.verify" => {
+            // args: distinfo, recorded entry name, name of the file on disk, content, plain
+            // hashes, patch hashes (the last two are for the model).  The Entry-level API:
+            // the file checked need not be called like the entry.
+            let d = Distinfo::from_bytes(&op.args[0]);
+            let ename = path_of(&op.args[1]);
+            let fname = path_of(&op.args[2]);
+            if fname.is_absolute() || fname.components().any(|c| !matches!(c, std::path::Component::Normal(_))) {
+                return "BAD-PATH".into();
+            }
+            let Some(entry) = d.get_distfile(ename).or_else(|| d.get_patchfile(ename)) else {
+                return "noentry".into();
+            };
+            let _ = std::fs::remove_dir_all("f");
+            let full = Path::new("f").join(fname);
+            if let Some(parent) = full.parent() {
+                std::fs::create_dir_all(parent).unwrap();
+            }
+            std::fs::write(&full, &op.args[3]).unwrap();
+            let size = match entry.verify_size(&full) {
+                Ok(n) => format!("ok:{}", n),
+                Err(e) => verr(&e),
+            };
+            let sums: Vec<String> = DIGESTS
+                .iter()
+                .map(|dg| match entry.verify_checksum(&full, *dg) {
+                    Ok(_) => "ok".to_string(),
+                    Err(e) => verr(&e),
+                })
+                .collect();
+            let all: Vec<String> = entry
+                .verify_checksums(&full)
+                .iter()
+                .map(|r| match r {
+                    Ok(dg) => format!("ok:{}", dg),
+                    Err(e) => verr(e),
+                })
+                .collect();
+            let _ = std::fs::remove_dir_all("f");
+            format!("size={}|sums={}|all={}", size, sums.join(","), all.join(","))
+        }
         _ => "UNKNOWN-OP".into(),
     }
 }
